@@ -85,6 +85,10 @@ func NewStream() io.ReadWriteCloser
 // messages, reads block until a message (or Close) arrives.
 func NewPipe() io.ReadWriteCloser
 
+// KVStorm lets up to n later commits of read-write transactions of the KV model fail with
+// ErrConflict although the path contains no conflicting writer (other requests being served).
+func KVStorm(n int)
+
 // StreamHistory declares that an arbitrary amount of earlier, well-formed traffic has already been
 // read through every reader currently wrapping the stream (a long-lived connection).
 func StreamHistory(rwc io.ReadWriteCloser)
